@@ -344,6 +344,56 @@ func (w *Rewriter) unpack(fd *schema.Field, rec Record, payload []byte) []Record
 	return out
 }
 
+// Ragged returns b (a valid encoding of message `name`) with one packed repeated scalar field made
+// ragged: its payload gets 1..size-1 extra bytes (fixed-width kinds) or an unterminated varint
+// (varint kinds), with a CONSISTENT length prefix — malformed for every protobuf parser. ok=false if
+// the message has no packed occurrence.
+func (w *Rewriter) Ragged(name string, b []byte) ([]byte, bool) {
+	m := w.F.Msg(name)
+	recs, ok := Split(b)
+	if !ok || m == nil {
+		return nil, false
+	}
+	byNum := map[int32]*schema.Field{}
+	for i := range m.Fields {
+		byNum[m.Fields[i].Num] = &m.Fields[i]
+	}
+	var cand []int
+	for i, rec := range recs {
+		fd := byNum[int32(rec.Num)]
+		if fd == nil || rec.Typ != protowire.BytesType {
+			continue
+		}
+		sh := w.F.ShapeOf(fd)
+		if sh.Repeated && (sh.Cat == "scalar" || sh.Cat == "enum") && fd.Kind != "string" && fd.Kind != "bytes" {
+			cand = append(cand, i)
+		}
+	}
+	if len(cand) == 0 {
+		return nil, false
+	}
+	i := cand[w.R.Intn(len(cand))]
+	fd := byNum[int32(recs[i].Num)]
+	payload, _ := protowire.ConsumeBytes(recs[i].Val)
+	payload = append([]byte(nil), payload...)
+	switch fd.Kind {
+	case "fixed32", "sfixed32", "float":
+		for k := 1 + w.R.Intn(3); k > 0; k-- {
+			payload = append(payload, byte(w.R.Intn(256)))
+		}
+	case "fixed64", "sfixed64", "double":
+		for k := 1 + w.R.Intn(7); k > 0; k-- {
+			payload = append(payload, byte(w.R.Intn(256)))
+		}
+	default:
+		for k := 1 + w.R.Intn(3); k > 0; k-- {
+			payload = append(payload, byte(0x80|w.R.Intn(128)))
+		}
+	}
+	recs[i].Val = protowire.AppendBytes(nil, payload)
+	return Join(recs), true
+}
+
 // Mutate returns a (probably malformed) corruption of b.
 func Mutate(r *rand.Rand, b []byte) []byte {
 	out := append([]byte(nil), b...)
